@@ -245,9 +245,12 @@ func main() {
 			add(docCase{Desc: fmt.Sprintf("count n=%d v1", n), Class: classNoExt(n), Spec: s, Encodings: allEnc})
 		}
 	}
-	// (2) serial widths 1..20, both sign-bit forms
-	for w := 1; w <= 20; w++ {
+	// (2) serial widths 1..20 in both sign-bit forms, and the 20-octet value with the top bit set (21 content octets)
+	for w := 1; w <= 21; w++ {
 		for _, hi := range []bool{false, true} {
+			if w == 21 && !hi {
+				continue // 21 content octets only for a 20-octet value with the top bit set
+			}
 			var es []crlgen.Entry
 			for k := 0; k < 5; k++ {
 				es = append(es, crlgen.Entry{Serial: gen.SerialOfWidth(rng, w, hi), Date: gen.BaseTime.Add(-time.Duration(k) * time.Hour), GenTime: k%2 == 1})
